@@ -281,7 +281,7 @@ func c19Inbound(x *c19World, spec c19Spec, res *core.CaseResult, verbose bool) {
 	for _, ch := range []string{a, b} {
 		fix.Fund(c, common.BytesToAddress(address.Hash(fmt.Sprintf("%s/%s", transfertypes.PortID, ch), []byte(x.remote.Bech32()))).Bytes(), sdk.NewCoin(fxtypes.DefaultDenom, sdkmath.NewInt(1)))
 	}
-	denoms := []string{"atom", "usdtx", "foreign", fxtypes.DefaultDenom, fxReturn}
+	denoms := []string{"atom", "usdtx", "foreign", fxtypes.DefaultDenom, fxReturn, fxtypes.DefaultDenom}
 	for i := 0; i < spec.N; i++ {
 		u := x.users[rng.IntN(len(x.users))]
 		var denom, recvKind, amtKind, memoKind string
@@ -413,7 +413,9 @@ func c19Inbound(x *c19World, spec c19Spec, res *core.CaseResult, verbose bool) {
 				res.Violate("C19/success-ack-credited-someone-else", "%s: success acknowledgement, unexpected change %s (all changes: %v)", desc, line, d)
 			}
 		}
-		if recvKind == "hex" && denom != fxtypes.DefaultDenom && denom != fxReturn {
+		// (a coin that is merely called "FX" on the sending chain is a foreign voucher here like any other; only FX
+		// returning home over the channel it left by is the native coin)
+		if recvKind == "hex" && denom != fxReturn {
 			// hex receiver of a non-native coin: credited as ERC-20, exactly the amount
 			k := who + "/atom"
 			b0, _ := new(big.Int).SetString(mid.erc[k], 10)
